@@ -19,6 +19,13 @@ Theorem C09_group_counts_sum_nrows : forall idx rows,
   = length rows.
 Proof. exact group_counts_sum_nrows. Qed.
 
+(* group sums add up to the overall sum (any integer-valued function of a row, any buffersize) *)
+Theorem C09_group_sums_add_up : forall (f : row -> Z) idx (bs : option nat) rows,
+  (forall b, bs = Some b -> (1 <= b)%nat) ->
+  fold_right (fun g acc => (zsum f (snd g) + acc)%Z) 0%Z (groupby (getkey idx) (sort_data (row_leb false idx) bs rows))
+  = zsum f rows.
+Proof. exact group_sums_add_up. Qed.
+
 (* valuecounter / valuecounts: counts add up to the number of values *)
 Theorem C09_valuecounts_sum : forall vs c, total (fold_left counter_add vs c) = (total c + Z.of_nat (length vs))%Z.
 Proof. exact valuecounts_sum_nvalues. Qed.
@@ -65,6 +72,7 @@ Proof. vm_compute. reflexivity. Qed.
 
 Print Assumptions C09_groups_partition_rows.
 Print Assumptions C09_group_counts_sum_nrows.
+Print Assumptions C09_group_sums_add_up.
 Print Assumptions C09_valuecounts_sum.
 Print Assumptions C09_selected_is_member.
 Print Assumptions C09_reducer_applied_per_group.
